@@ -153,7 +153,7 @@ Inductive flabel :=
 | Spawn (d : nat)                (* dispatcher d: case bh.concurrentEvents <- struct{}{}: go ...; eventsDispatched++ *)
 | Cancel (d : nat)               (* dispatcher d: case <-ctx.Done(): eventWg.Add(eventsDispatched - len(backends)) *)
 | SendCall (g : nat)             (* goroutine g enters backend.SendEvent *)
-| SendRet (g : nat)              (* ... which returns *)
+| SendRet (g : nat)              (* ... which returns - nil or an error, the deferred steps are the same *)
 | SemRelease (g : nat)           (* deferred <-bh.concurrentEvents *)
 | WgDone (g : nat)               (* deferred bh.eventWg.Done() *)
 | WaitCloud                      (* CloudHandler.WaitForEvents: ch.wg.Wait() returns *)
